@@ -1,6 +1,10 @@
 #!/bin/bash
-# try_refactor.sh <patch.diff> : applies a behaviour-preserving patch to a scratch worktree and runs EVERY
-# registered check on it. Any VIOLATION / non-zero exit is a false alarm of the checker. Exit 0 if silent.
+# try_refactor.sh <patch.diff> [Cnn...]: applies a behaviour-preserving patch to a scratch worktree and runs
+# EVERY registered check on it (or the named ones). Any VIOLATION / non-zero exit is a false alarm of the
+# checker. Exit 0 if silent.
+# Fast path: `bmverif check-all` runs the checks in one process sharing the loaded program (about 30 s for
+# all 16); whatever it reports is then confirmed with the registered single-check command before it is
+# called an alarm. FAST=0 runs the single-check commands only (PAR of them at a time).
 PATCH=$(readlink -f "$1"); shift
 WT=$(mktemp -d /tmp/bmverif-ref.XXXXXX)
 EV=$(mktemp -d /tmp/bmverif-ev.XXXXXX)
@@ -8,7 +12,16 @@ git -C /repo worktree add --detach "$WT" HEAD >/dev/null 2>&1 || { echo "worktre
 if ! git -C "$WT" apply "$PATCH" 2>/dev/null; then echo "PATCH DOES NOT APPLY $PATCH"; git -C /repo worktree remove --force "$WT"; rm -rf "$EV"; exit 2; fi
 alarm=0
 ids=${@:-$(/verif/bin/bmverif list)}
-printf "%s\n" $ids | xargs -P 6 -I{} sh -c "BMVERIF_REPO=$WT BMVERIF_EVIDENCE=$EV /verif/bin/bmverif check {} > $EV/{}.out 2>&1; echo \$? > $EV/{}.rc"
+single() { BMVERIF_REPO=$WT BMVERIF_EVIDENCE=$EV /verif/bin/bmverif check $1 > $EV/$1.out 2>&1; echo $? > $EV/$1.rc; }
+if [ "${FAST:-1}" = "1" ]; then
+  BMVERIF_REPO=$WT BMVERIF_EVIDENCE=$EV /verif/bin/bmverif check-all $EV $ids > $EV/all.log 2>&1
+  for id in $ids; do
+    rc=$(cat $EV/$id.rc 2>/dev/null || echo missing)
+    if [ "$rc" != "0" ] || grep -q "^VIOLATION" $EV/$id.out; then single $id; fi
+  done
+else
+  printf "%s\n" $ids | xargs -P ${PAR:-6} -I{} sh -c "BMVERIF_REPO=$WT BMVERIF_EVIDENCE=$EV /verif/bin/bmverif check {} > $EV/{}.out 2>&1; echo \$? > $EV/{}.rc"
+fi
 for id in $ids; do
   rc=$(cat $EV/$id.rc)
   if [ "$rc" != "0" ] || grep -q "^VIOLATION" $EV/$id.out; then
